@@ -23,7 +23,8 @@ ASSUMPTIONS = ["instances are matched to epochs by their start cycle (at most on
 FLOORS = {"epochs_checked": {"quick": 1200, "thorough": 20000}, "returns_to_earlier_key": {"quick": 250, "thorough": 4000},
           "instance_runs_compared": {"quick": 5000, "thorough": 80000}, "output_ticks_compared": {"quick": 1200, "thorough": 20000},
           "unmatched_key_errors": {"quick": 3, "thorough": 50}, "default_to_default_key_changes": {"quick": 30, "thorough": 500}, "twin_switches": {"quick": 25, "thorough": 400},
-          "passthrough_branch_epochs": {"quick": 40, "thorough": 600}}
+          "passthrough_branch_epochs": {"quick": 40, "thorough": 600},
+          "set_switch_same_spec_reinstantiations": {"quick": 40, "thorough": 600}, "set_switch_epochs_dropping_earlier_elements": {"quick": 80, "thorough": 1200}}
 BATCH = 20
 SOLO = (1001, 1002, 1003, 1004)
 
@@ -105,7 +106,8 @@ def gen_case12(rng, name, idx):
 
 def generate(rng, tier, seed):
     n = scaled(250 if tier == "quick" else 4000)
-    return [gen_case12(rng, f"c12_{seed}_{k}", k) for k in range(n)] + [gen_pair_switch(rng, f"c12_{seed}_ps{k}") for k in range(n // 5)]
+    return [gen_case12(rng, f"c12_{seed}_{k}", k) for k in range(n)] + [gen_pair_switch(rng, f"c12_{seed}_ps{k}") for k in range(n // 5)] + \
+        [gen_set_switch(rng, f"c12_{seed}_ss{k}") for k in range(n // 4)]
 
 
 def sampled(ticks, t0):
@@ -165,6 +167,110 @@ def standalone(case, branch, t0, t1, key, kticks, aticks, bticks, emulate=False,
     mr.used_preset = preset is not None
     mr.used_nested_unmodified = mr.stats.get("nested_sampled_unmodified", 0) > 0
     return mr
+
+
+def gen_set_switch(rng, name):
+    """Branches whose result is a SET (the switch owns a collection-valued output): every instantiation - another key, the same
+    key again under reload-on-tick, one unmatched key after another landing on the default branch - starts from the empty set."""
+    from .prog import Case, S
+    end = rng.choice([24, 36, 48])
+    c = Case(name, 0, end)
+    reload = rng.random() < 0.5
+    has_default = rng.random() < 0.6
+    pool = [1, 2, 3] + ([9, 10, 11] if has_default else [])
+    val = rng.choice(pool)
+    ks = [(rng.choice([1, 2]), val)]
+    for t in sorted(rng.sample(range(3, end), rng.choice([4, 7, 11]))):
+        r = rng.random()
+        if r < 0.3 and (reload or val not in (1, 2, 3)):
+            # the SAME branch spec is instantiated again: the same key re-ticks under reload, or another unmatched key arrives
+            val = val if val in (1, 2, 3) else rng.choice([v for v in (9, 10, 11) if v != val])
+        elif r < 0.85:
+            val = rng.choice([v for v in pool if v != val])
+        ks.append((t, val))
+    c.scripts[1] = ks
+    v, sc = 0, []
+    for t in [0] + sorted(rng.sample(range(1, end), rng.choice([6, 12, 20]))):
+        v += rng.choice([1, 2, 3, 5])
+        sc.append((t, v))
+    c.scripts[2] = sc
+    mods = {}
+    for b in range(4 if has_default else 3):
+        mods[b] = (rng.choice([3, 5, 8]), rng.choice([0, 1, 1]))
+        c.graphs[f"fn{b}"] = [S("q", "toset", "p0", uid=100 + b, mod=mods[b][0], acc=mods[b][1]), S("", "RET", "q")]
+    kw = dict(cases="1:fns:0,2:fns:1,3:fns:2", out="tss")
+    if has_default:
+        kw["default"] = "fns:3"
+    if reload:
+        kw["reload"] = 1
+    c.graphs["main"] = [S("k", "src", uid=1, mode=1), S("a", "src", uid=2, mode=1), S("s", "switch", "k", "a", **kw),
+                        S("", "cmirror", "s", uid=50)]
+    c.meta.update(kind="set_switch", reload=reload, default=has_default, mods=mods)
+    return c
+
+
+def check_set_switch(case, tr):
+    """Oracle: at every tick of the switch output its value is the set the CURRENT instance alone has produced since it was
+    created (held input sampled at the selection, then its ticks); elements written by earlier instances are gone from the
+    selection cycle on, and every tick's added / removed are coherent with the previous value read."""
+    from .gen_coll import parse_dumps
+    from .collmodel import dump_value, _key
+    res = Result(signature=case.text().split("\n", 1)[1])
+    if tr.build_error or not tr.runs or tr.runs[0].error:
+        res.violations.append(Violation(f"build/run failed: {tr.build_error or (tr.runs[0].error if tr.runs else 'no run')}"))
+        return res
+    mirror = {t: d for t, d, _ in parse_dumps(tr.runs[0]).get(50, [])}
+    kt = dict((t, v) for t, v in case.scripts[1] if t < case.end)
+    at = dict((t, v) for t, v in case.scripts[2] if t < case.end)
+    V = []
+    cur_key, branch, inst, held, last = None, None, None, None, None
+    epochs = same_spec = stale_dropped = checked = 0
+    prev_read = set()
+    for t in range(case.start, case.end):
+        if t in at:
+            held = at[t]
+        fresh = False
+        if t in kt:
+            k = kt[t]
+            if cur_key is None or k != cur_key or case.meta["reload"]:
+                nb = k - 1 if k in (1, 2, 3) else 3
+                if branch == nb:
+                    same_spec += 1
+                cur_key, branch, inst, last, fresh = k, nb, set(), None, True
+                epochs += 1
+        if branch is None:
+            if t in mirror:
+                V.append(f"t={t}: the switch output ticked before any key")
+            continue
+        ran = fresh or t in at
+        if ran and held is not None:
+            m, acc = case.meta["mods"][branch]
+            e = held % m
+            if not acc:
+                inst.clear()
+            inst.add(e)
+        if t in mirror:
+            d = mirror[t]
+            got = set(_key(x) for x in dump_value(d))
+            add, rem = set(_key(x) for x in d["add"]), set(_key(x) for x in d["rem"])
+            checked += 1
+            if got != inst:
+                V.append(f"t={t}: switch output reads {sorted(got)}; the instance selected at this point (key {cur_key}, branch {branch}"
+                         f"{', created in this cycle' if fresh else ''}) has produced {sorted(inst)} on its own")
+            elif (prev_read | add) - rem != got or add & rem or not add <= got or rem & got or not rem <= prev_read:
+                V.append(f"t={t}: delta of the switch output (+{sorted(add)} -{sorted(rem)}) does not lead from the previous reading "
+                         f"{sorted(prev_read)} to {sorted(got)}")
+            if fresh and prev_read - inst:
+                stale_dropped += 1
+            prev_read = got
+        elif ran and held is not None and fresh:
+            V.append(f"t={t}: a new instance was created (key {cur_key}) and wrote {sorted(inst)} but the switch output did not tick")
+    for m in V[:5]:
+        res.violations.append(Violation(m))
+    res.counters = {"set_switch_epochs": epochs, "set_switch_same_spec_reinstantiations": same_spec,
+                    "set_switch_epochs_dropping_earlier_elements": stale_dropped, "set_switch_ticks_checked": checked}
+    res.nontrivial = epochs >= 3
+    return res
 
 
 def gen_pair_switch(rng, name):
@@ -248,6 +354,8 @@ def check_pair_switch(case, tr):
 def check(case, tr):
     if case.meta.get("kind") == "pair_switch":
         return check_pair_switch(case, tr)
+    if case.meta.get("kind") == "set_switch":
+        return check_set_switch(case, tr)
     if not case.meta.get("twin") or tr.build_error or not tr.runs:
         return check_one(case, tr, bool(case.meta["reload"]), 50, None)
     # two switch_ calls over the same key, arguments and case table that differ ONLY in reload-on-tick are two nodes
